@@ -107,6 +107,12 @@ bool Buffer::ensureWritableSize(size_t write_size)
         return true;
 
     } else {    //! 只有重新分配更多的空间才可以
+        //! (write_index_ + write_size) << 1 must be representable: a wrapped-around size
+        //! allocated less than requested (even less than write_index_) and reported success
+        const size_t max_half = static_cast<size_t>(-1) >> 1;
+        if (write_index_ > max_half || write_size > max_half - write_index_)
+            return false;
+
         size_t new_size = (write_index_ + write_size) << 1;  //! 两倍扩展
         uint8_t *p_buff = new uint8_t[new_size];
         if (p_buff == nullptr)
